@@ -292,6 +292,7 @@ def run_h2(prop, tier, seed, report):
                 "K": "a call took the channel lock a number of times its kind does not allow (not one critical section)",
                 "O": "the results of the calls are not results of any operation-level interleaving of the atomic channel",
                 "HB": "happens-before race on the crate's own trace (vector-clock detector)",
+                "HBL": "the wait list is accessed by two threads with no happens-before between them (the lock does not order its critical sections)",
                 "stuck": "an operation is blocked for ever although its counterpart finished",
                 "ledger": "a tagged value was not received / destroyed / handed back exactly once",
                 "corrupt": "a payload arrived corrupted"}[f["kind"]]
